@@ -337,3 +337,25 @@ MANIFEST_TEXT["C13"] = dict(
     text="The monitor observes every intermediate state the layout passes through (tens of thousands of iterations per run) rather than only the result: no path segment may enter a foreign node's interior, rectangles may not overlap, path ends stay on their nodes, bends sit on corners and wrap their node, and no node may change side of an edge within a step. Held on the executions observed; libtopology's own debug assertions that fire on random input are reported under C15 (finding F12).",
     note="Reads topology::Nodes / topology::Edges objects handed to ColaTopologyAddon (public members) inside the TestConvergence callback.",
 )
+
+CHECKS["C14"] = dict(
+    level="exploration",
+    rule=("random: connected simple graphs n 1..60 (random connected, trees, cycles, ladders, cores with hanging trees, hubs up to degree 12, dense cores), random node sizes and initial "
+          "positions, HolaOpts varied (ACA vs chains for links, near-align on/off, aspect-ratio preference, padding scalar, tree growth direction, convex trees); shipped: the TGLF graphs "
+          "under libdialect/tests/graphs (connected, simple, <=120 nodes). After doHOLA returns: same node ids / edge multiset, exact node sizes, no overlap, every edge routed with axis-parallel "
+          "segments ending at its end nodes and avoiding other nodes, and every separation constraint the graph writes out is satisfied (own interpreter of the TGLF sepco semantics). "
+          "non-trivial = the graph has a cycle and a leaf (core plus peeled tree), or some edge is bent"),
+    workloads=[dict(harness="c14_hola", mode="random", quick=1600, thorough=60000, watchdog=300, san_thorough=600),
+               dict(harness="c14_hola", mode="shipped", quick=120, thorough=240, fixed=True, watchdog=300)],
+    min_nontrivial=dict(quick=500, thorough=10000),
+    max_inconclusive=0.06,
+    require_obs=["edges_checked", "node_pairs_checked", "sepcos_checked", "graphs_with_bent_edges"],
+    assumptions=["doHOLA throwing std::runtime_error (documented; about 0.2% of random graphs) yields no result: inconclusive, counted",
+                 "route ends must lie within the end node's box enlarged by Graph::getIEL() (the padding documented for connection points)",
+                 "separation constraints are evaluated on live node geometry with tolerance 1.6e-3 (the written gaps are rounded to 3 decimals)"],
+)
+MANIFEST_TEXT["C14"] = dict(
+    technique="runtime monitor: structural and geometric oracle on doHOLA's returned graph, including an independent interpreter for the separation constraints it returns",
+    text="Each generated or shipped graph is laid out with doHOLA under varied options and the result is judged from public getters: identity of nodes/edges, sizes, overlaps, orthogonality and end attachment of every route, node avoidance, and satisfaction of the returned constraints. Held on the executions observed; finding F51 (whole-graph-is-a-tree inputs) is matched by signature.",
+    note="Trusts the harness' reading of the TGLF constraint semantics documented in libdialect/io.h.",
+)
